@@ -14,6 +14,7 @@
 // observer), so the race oracle sees the refactored code the way it would run in production.
 //
 // Compiled WITHOUT sanitizer instrumentation (like sched.cpp): nothing in here may create an edge by itself.
+#include <dlfcn.h>
 #include <errno.h>
 #include <linux/futex.h>
 #include <pthread.h>
@@ -189,4 +190,86 @@ extern "C" long __wrap_syscall(long number, long a1, long a2, long a3, long a4, 
     return n;
   }
   return __real_syscall(number, a1, a2, a3, a4, a5, a6);
+}
+
+// ---- condition variables ---------------------------------------------------------------------------------
+// std::condition_variable::wait is an out-of-line function of libstdc++.so, so its call of pthread_cond_wait cannot be
+// redirected with --wrap; the functions below are defined under their real names in the executable, which the dynamic
+// linker prefers over libc's (the same mechanism the sanitizer runtimes use for their interceptors, whose weak aliases
+// these strong definitions override).  A simulated waiter releases the mutex, yields as blocked until a signal /
+// broadcast on the same condition variable selects it (no spurious wake-ups, so that a lost signal shows as a liveness
+// violation; once the step budget is exhausted it is released), then re-acquires the mutex through the emulated lock.
+extern "C" {
+int __interceptor_pthread_cond_wait(pthread_cond_t*, pthread_mutex_t*) __attribute__((weak));
+int __interceptor_pthread_cond_timedwait(pthread_cond_t*, pthread_mutex_t*, const struct timespec*) __attribute__((weak));
+int __interceptor_pthread_cond_signal(pthread_cond_t*) __attribute__((weak));
+int __interceptor_pthread_cond_broadcast(pthread_cond_t*) __attribute__((weak));
+int __real_pthread_mutex_unlock(pthread_mutex_t*);
+int __wrap_pthread_mutex_unlock(pthread_mutex_t* m) { return __real_pthread_mutex_unlock(m); }
+volatile uint32_t sim_block_cond_waits = 0, sim_block_cond_signals = 0, sim_block_cond_lost = 0;
+}
+namespace {
+template <class F>
+F next_symbol(const char* name) {
+  return reinterpret_cast<F>(dlsym(RTLD_NEXT, name));
+}
+Waiter g_cond_waiters[16];
+int cond_wait_sim(int tid, pthread_cond_t* c, pthread_mutex_t* m) {
+  sim_block_cond_waits = sim_block_cond_waits + 1;
+  Waiter* w = nullptr;
+  for (auto& x : g_cond_waiters)
+    if (!x.used) {
+      w = &x;
+      break;
+    }
+  if (w) *w = Waiter{c, tid, false, true};
+  __real_pthread_mutex_unlock(m);
+  for (;;) {
+    sim_block_waits = sim_block_waits + 1;
+    sch_blocked(tid, kFutex);
+    if (!w || w->woken) break;
+    if (sch_over_budget()) {
+      sim_block_cond_lost = sim_block_cond_lost + 1;
+      break;
+    }
+  }
+  if (w) w->used = false;
+  return __wrap_pthread_mutex_lock(m);
+}
+int cond_wake_sim(pthread_cond_t* c, bool all) {
+  sim_block_cond_signals = sim_block_cond_signals + 1;
+  for (auto& x : g_cond_waiters)
+    if (x.used && !x.woken && x.addr == c) {
+      x.woken = true;
+      if (!all) break;
+    }
+  return 0;
+}
+}  // namespace
+
+extern "C" int pthread_cond_wait(pthread_cond_t* c, pthread_mutex_t* m) {
+  int tid = sch_self();
+  if (tid >= 0) return cond_wait_sim(tid, c, m);
+  if (__interceptor_pthread_cond_wait) return __interceptor_pthread_cond_wait(c, m);
+  static auto real = next_symbol<int (*)(pthread_cond_t*, pthread_mutex_t*)>("pthread_cond_wait");
+  return real(c, m);
+}
+extern "C" int pthread_cond_timedwait(pthread_cond_t* c, pthread_mutex_t* m, const struct timespec* ts) {
+  int tid = sch_self();
+  if (tid >= 0) return cond_wait_sim(tid, c, m);  // simulated time has no wall clock: a timed wait waits for its signal
+  if (__interceptor_pthread_cond_timedwait) return __interceptor_pthread_cond_timedwait(c, m, ts);
+  static auto real = next_symbol<int (*)(pthread_cond_t*, pthread_mutex_t*, const struct timespec*)>("pthread_cond_timedwait");
+  return real(c, m, ts);
+}
+extern "C" int pthread_cond_signal(pthread_cond_t* c) {
+  if (sch_self() >= 0) return cond_wake_sim(c, false);
+  if (__interceptor_pthread_cond_signal) return __interceptor_pthread_cond_signal(c);
+  static auto real = next_symbol<int (*)(pthread_cond_t*)>("pthread_cond_signal");
+  return real(c);
+}
+extern "C" int pthread_cond_broadcast(pthread_cond_t* c) {
+  if (sch_self() >= 0) return cond_wake_sim(c, true);
+  if (__interceptor_pthread_cond_broadcast) return __interceptor_pthread_cond_broadcast(c);
+  static auto real = next_symbol<int (*)(pthread_cond_t*)>("pthread_cond_broadcast");
+  return real(c);
 }
